@@ -17,18 +17,18 @@ def toList : E → List E
   | _ => []
 
 def wf : Srt → E → Bool
-  | s, .sym _ _ => s != .P
+  | s, .sym n _ => s != .P && n != "True" && n != "False"
   | s, .int _ => s == .A
   | s, .rat _ q => s == .A && decide (q ≥ 2)
   | s, .flt t n => s == .A && fltOK t n
   | s, .pi | s, .e1 | s, .deriv _ _ => s == .A
   | s, .tt | s, .ff => s == .B
   | s, .add a | s, .mul a | s, .fn _ a => s == .A && isList a && wf .A a
-  | s, .pow b x => s == .A && wf .A b && wf .A x
-  | s, .rel r a b => s == .B && ((wf .A a && wf .A b) || ((r == .eq || r == .ne) && wf .B a && wf .B b))
+  | s, .pow b x => s == .A && !isList b && !isList x && wf .A b && wf .A x
+  | s, .rel r a b => s == .B && !isList a && !isList b && ((wf .A a && wf .A b) || ((r == .eq || r == .ne) && wf .B a && wf .B b))
   | s, .and a | s, .or a => s == .B && isList a && wf .B a
   | s, .pw ps => s == .A && isList ps && wf .P ps
-  | s, .pair v c => s == .P && wf .A v && wf .B c
+  | s, .pair v c => s == .P && !isList v && !isList c && wf .A v && wf .B c
   | _, .other _ => true
   | _, .nil => true
   | s, .cons h t => wf s h && !isList h && isList t && wf s t
@@ -62,7 +62,11 @@ def kids : E → List E
   | .pair v c => [v, c]
   | _ => []
 
-def M (e : E) : Prop := Q e ∧ (∀ c ∈ kids e, Q c) ∧ (∀ h ∈ toList e, Q h ∧ ∀ c ∈ kids h, Q c)
+/-- the statement for a node, its kids and their kids (a product looks at the base of a power among the factors of a
+    factor that is itself a product) -/
+def Deep (e : E) : Prop := Q e ∧ ∀ c ∈ kids e, (Q c ∧ ∀ c' ∈ kids c, Q c')
+
+def M (e : E) : Prop := Deep e ∧ ∀ h ∈ toList e, Deep h
 
 /-- the Item a parent receives for the argument `h` -/
 def mk (h : E) : Item := ⟨h, (pr h).st, (pr h).doc, (pr h).base, (pr h).items.map Item.one⟩
